@@ -19,7 +19,7 @@ import (
 
 func genC14Grammar(seed int) *gram.Grammar {
 	g := rapid.Custom(func(t *rapid.T) *gram.Grammar {
-		o := gram.GenOpts{MaxProds: 5, MaxDepth: 4, TrapPercent: 10, PosStyles: true, MixedUnion: true, DirectRec: true, WildLits: true, Embeds: true,
+		o := gram.GenOpts{MaxProds: 5, MaxDepth: 4, TrapPercent: 10, PosStyles: true, MixedUnion: true, DirectRec: true, WildLits: true, Embeds: true, Parseables: true,
 			NameElided: rapid.IntRange(0, 5).Draw(t, "named") == 0}
 		return gram.GenGrammar(t, o)
 	})
